@@ -18,7 +18,9 @@ import ascmhl.history
 import ascmhl.utils
 from click.testing import CliRunner
 
-ZONES = ["UTC", "Asia/Kolkata", "Etc/GMT+8", "Europe/Berlin", "America/New_York", "Australia/Sydney", "Pacific/Chatham"]
+ZONES = ["UTC", "Asia/Kolkata", "Etc/GMT+8", "Europe/Berlin", "America/New_York", "Australia/Sydney", "Pacific/Chatham",
+         # negative offsets with minutes, quarter-hour offsets, half-hour DST zones
+         "America/St_Johns", "Pacific/Marquesas", "Asia/Kathmandu", "Australia/Adelaide", "Australia/Lord_Howe"]
 # instants well away from any switch (UTC): mid January / mid July of two years
 T_WINTER = int(datetime.datetime(2021, 1, 15, 12, 0, 7, tzinfo=datetime.timezone.utc).timestamp())
 T_SUMMER = int(datetime.datetime(2021, 7, 15, 12, 0, 7, tzinfo=datetime.timezone.utc).timestamp())
